@@ -482,7 +482,6 @@ pub(crate) mod verif_kani_pool {
     inst_nounwind!(pool_shrink_contract_1slab, 6, shrink_contract(1));
     inst_nounwind!(pool_shrink_contract_2slabs, 6, shrink_contract(2));
     inst_nounwind!(pool_shrink_contract_3slabs, 6, shrink_contract(3));
-    inst!(pool_iter_contract_1slab, 5, iter_contract(1, None));
-    // 2-slab instances (forward-only / backward-only) did not finish in 600 s and the mixed one exhausted memory:
-    // slab-crossing of the pool iterator is not decided here.
+    // pool iterator: the 1-slab instance over real slabs was unreliable (> 3600 s under load), 2-slab instances did not
+    // finish or exhausted memory: decided instead over the slab iterator's contract in units/pool/pool_iter.kspec.rs.
 }
